@@ -140,25 +140,31 @@ def fdCalls (sp : Option Space) (x : Vec) (s : Step) (idx : List Nat) : List Vec
 
 /-! ### Centered differences (`CenteredDifferences`) -/
 
-/-- Forward half step: `0` iff `x[i] + h` would exceed the upper bound. -/
-def cdPlus (sp : Option Space) (x : Vec) (s : Step) (i : Nat) : Rat :=
-  let h := s.at i
+/-- `exceeds_upper_bounds[k]`: the forward point `x[i] + h` would exceed the upper bound. -/
+def cdFwdBlocked (sp : Option Space) (x : Vec) (s : Step) (i : Nat) : Bool :=
   match sp with
-  | none => h
+  | none => false
   | some sp =>
     match sp.ubW i with
-    | none => h
-    | some u => if u < getR x i + h then 0 else h
+    | none => false
+    | some u => decide (u < getR x i + s.at i)
 
-/-- Backward half step: `0` iff `x[i] - h` would fall below the lower bound. -/
+/-- Forward half step: `0` iff `x[i] + h` would exceed the upper bound
+    (`where(exceeds_upper_bounds, 0, step)`). -/
+def cdPlus (sp : Option Space) (x : Vec) (s : Step) (i : Nat) : Rat :=
+  if cdFwdBlocked sp x s i then 0 else s.at i
+
+/-- Backward half step: `0` iff `x[i] - h` would fall below the lower bound *and* the forward
+    point is admissible (`where((x - step < lower_bounds) & ~exceeds_upper_bounds, 0, -step)`):
+    when both directions leave the bounds the backward point is used, as `FirstOrderFD` does. -/
 def cdMinus (sp : Option Space) (x : Vec) (s : Step) (i : Nat) : Rat :=
   let h := s.at i
   match sp with
   | none => -h
-  | some sp =>
-    match sp.lbW i with
+  | some sp' =>
+    match sp'.lbW i with
     | none => -h
-    | some l => if getR x i - h < l then 0 else -h
+    | some l => if getR x i - h < l ∧ cdFwdBlocked sp x s i = false then 0 else -h
 
 /-- `_generate_perturbations`: the `k` forward points followed by the `k` backward points. -/
 def cdGenerate (sp : Option Space) (x : Vec) (s : Step) (idx : List Nat) : List Vec :=
